@@ -1864,10 +1864,10 @@ mod extra {
     /// two fingerprints; the remote is a snow responder whose prologue is computed from ITS view
     /// of the fingerprints (fpmode 0: the same pair; others: a differing pair).
     pub fn run_kind8(rt: &tokio::runtime::Runtime, p: &[u64]) -> Option<(Vec<u64>, Vec<u64>)> {
-        if p.len() != 4 || p[1] == 0 || p[1] >= NKINDS || p[3] > 7 {
+        if p.len() != 5 || p[1] == 0 || p[1] >= NKINDS || p[3] > 7 || p[4] > 6 {
             return None;
         }
-        let (seed, fkind, variant, fpmode) = (p[0], p[1], p[2], p[3]);
+        let (seed, fkind, variant, fpmode, lenmode) = (p[0], p[1], p[2], p[3], p[4]);
         let mut rng = Rng::new(seed ^ 0xC01_0008);
         let victim = keypair_from(&mut rng);
         let ka = keypair_from(&mut rng);
@@ -1907,12 +1907,29 @@ mod extra {
         let mut out = vec![0u8; 70_000];
         responder.read_message(&m1[2..], &mut buf).ok()?;
         let n = responder.write_message(&payload, &mut out).ok()?;
-        let reply = framed(&out[..n]);
+        // get_remote_peer_id takes the two-byte prefix only as the size of its output buffer and hands
+        // ALL the bytes behind it to snow: a prefix that does not match, bytes behind the message
+        let (prefix, extra, short): (usize, usize, bool) = match lenmode {
+            0 => (n, 0, false),
+            1 => (payload.len(), 0, false),                     // smaller than the message, enough for the payload
+            2 if !payload.is_empty() => (payload.len() - 1, 0, false), // one byte too small for the payload
+            3 => (65535, 0, false),
+            4 => (n, 1, false),                                 // a byte appended behind the message
+            5 => (n, 0, true),                                  // the reply cut to a single byte
+            6 => (0, 0, false),
+            _ => (n, 0, false),
+        };
+        let mut reply = vec![(prefix >> 8) as u8, (prefix & 0xff) as u8];
+        reply.extend_from_slice(&out[..n]);
+        reply.extend(std::iter::repeat(0x5a).take(extra));
+        if short {
+            reply.truncate(1);
+        }
         let res = ctx.get_remote_peer_id(&reply).map_err(|e| class(&e));
         let mut trace = vec![8];
         put_result(&mut trace, &res);
         trace.push(0);
-        let mut case = vec![8, 4];
+        let mut case = vec![8, 5];
         case.extend_from_slice(p);
         // finish_case appends payload, static key, tables; the prologues go in between
         let (c2, t2) = finish_case(Vec::new(), trace, &payload, &kp.public, None, ks, ss, false);
@@ -1922,6 +1939,7 @@ mod extra {
         case.extend_from_slice(&c2[..l1 + l2]);
         el(&mut case, &pro_i);
         el(&mut case, &pro_r);
+        case.extend([short as u64, prefix as u64, extra as u64]);
         case.extend_from_slice(&c2[l1 + l2..]);
         Some((case, t2))
     }
@@ -1942,9 +1960,12 @@ mod extra {
         }
         for fk in 1..NKINDS {
             for fp in 0..8u64 {
-                run(&[8, 4, 6000 + fk * 8 + fp, fk, fp + fk, fp]);
+                run(&[8, 5, 6000 + fk * 8 + fp, fk, fp + fk, fp, 0]);
             }
-            run(&[8, 4, 6500 + fk, fk, fk, 0]);
+            run(&[8, 5, 6500 + fk, fk, fk, 0, 0]);
+            for lm in 1..7u64 {
+                run(&[8, 5, 6600 + fk * 8 + lm, if lm % 2 == 0 { fk } else { 1 }, fk, 0, lm]);
+            }
         }
         for i in 0..n {
             let seed = rng.next() >> 16;
@@ -1956,7 +1977,7 @@ mod extra {
                 run(&[7, 3, seed, if rng.chance(30) { 17 } else { rng.below(18) }, rng.below(1 << 12)]);
             } else {
                 let fk = if rng.chance(40) { 1 } else { 1 + rng.below(NKINDS - 1) };
-                run(&[8, 4, seed, fk, rng.below(1 << 12), if rng.chance(50) { 0 } else { rng.below(8) }]);
+                run(&[8, 5, seed, fk, rng.below(1 << 12), if rng.chance(50) { 0 } else { rng.below(8) }, if rng.chance(70) { 0 } else { rng.below(7) }]);
             }
         }
     }
